@@ -25,7 +25,7 @@ ANCHORS = ["src/tickit/core/components/system_component.py", "src/tickit/core/ma
            "src/tickit/core/management/ticker.py", "src/tickit/core/management/schedulers/base.py", "src/tickit/adapters/io/tcp_io.py",
            "src/tickit/adapters/io/zeromq_push_io.py"]
 TECHNIQUE = 'Lean 4 theorems (invariants by induction over EVERY history of statement-level transition systems with ghost resource counters: the master run loop - proved to erase to the flag protocol that the trace acceptor ties to _do_tick -, the system component tick/error race, the TCP reply tasks, the ticker\'s to_update table; growth witnesses for the pre-repair code) + trace acceptance of the master loop in every long run + measurement of the real event loop (live tasks, retained finished tasks via gc, timers, entries of every reachable container) after N, 2N, 4N ticks / messages'
-LEVEL_TEXT = ('Proved (Props/C14Loop, C14Race, C14Ticker; invariants by induction over every history, no bound on its length): (1) the master run loop annotated with ghost counters for the tasks and the timer of the sleep / new-wakeup race: erasing the counters gives exactly the flag protocol MLoopSt.step (res_step_erases, res_run_erases, res_run_lifts - the protocol that the driver\'s trace acceptor ties to the real _do_tick on every run), and after ANY history of add_wakeup / interrupt / expiry / loop moves the loop holds <= 2 live tasks and <= 1 timer, none at all outside the race (loop_tasks_bounded, loop_tasks_exact); len(wakeups) <= number of DISTINCT components that ever asked and len(_pending_interrupts) <= len(wakeups) (loop_entries_bounded); without the cancellation of the loser (code before 8a9136c) n pre-emptions of a far sleep leave n tasks and n timers, for every n (old_loop_resources_grow). (2) the system component\'s tick/error race: <= 2 tasks per system component and 0 outside on_tick for every history, <= 2k for k system components under any interleaving, and linear growth before f518297 (system_race_bounded, system_farm_bounded, old_system_race_grows). (3) TCP reply tasks: for every history of connections, chunks, completions and closes the stored handles are exactly the replies still in flight on open connections - independent of the number of chunks processed - and n chunks left n+1 retained handles before 9447ad9 (tcp_bounded, tcp_quiescent, old_tcp_grows). (4) in every reachable state of every tick len(to_update) <= |extent| <= |components| (ticker_toUpdate_bounded). (5) one wakeup entry per component (addWakeup_length ...) and the older operation-level ledger. PARTIAL: task and timer lifetimes inside asyncio (lazy purging of cancelled timer handles, garbage collection of finished tasks, what other adapters create) are runtime behaviour; the system-race and TCP models are tied to the code by measurement, not by an acceptor. Measurement on the real code: 7 long runs (flat periodic, nested periodic, depth-2, far callback pre-empted by interrupts; with and without interrupts) are measured after N, 2N, 4N master ticks (N = 40 quick / 500 thorough): live tasks, finished-but-retained Task objects (gc), pending timers, wakeups, pending interrupts, entries of every container reachable from scheduler and components; the master loop events of each run must be accepted by the flag protocol model; plus 1200 / 16000 messages on one TCP connection through the real handle function with fake streams (some replies fail in the reply task) and 1200 / 16000 message sequences through the real ZeroMqPushIo with a fake socket whose peer goes away (sends fail); a resource that is higher at 4N than at N by more than 2 with non-decreasing differences is reported.')
+LEVEL_TEXT = ('Proved (Props/C14Loop, C14Race, C14Ticker; invariants by induction over every history, no bound on its length): (1) the master run loop annotated with ghost counters for the tasks and the timer of the sleep / new-wakeup race: erasing the counters gives exactly the flag protocol MLoopSt.step (res_step_erases, res_run_erases, res_run_lifts - the protocol that the driver\'s trace acceptor ties to the real _do_tick on every run), and after ANY history of add_wakeup / interrupt / expiry / loop moves the loop holds <= 2 live tasks and <= 1 timer, none at all outside the race (loop_tasks_bounded, loop_tasks_exact); len(wakeups) <= number of DISTINCT components that ever asked and len(_pending_interrupts) <= len(wakeups) (loop_entries_bounded); without the cancellation of the loser (code before 8a9136c) n pre-emptions of a far sleep leave n tasks and n timers, for every n (old_loop_resources_grow). (2) the system component\'s tick/error race: <= 2 tasks per system component and 0 outside on_tick for every history, <= 2k for k system components under any interleaving, and linear growth before f518297 (system_race_bounded, system_farm_bounded, old_system_race_grows). (3) TCP reply tasks: for every history of connections, chunks, completions and closes the stored handles are exactly the replies still in flight on open connections - independent of the number of chunks processed - and n chunks left n+1 retained handles before 9447ad9 (tcp_bounded, tcp_quiescent, old_tcp_grows). (4) in every reachable state of every tick len(to_update) <= |extent| <= |components| (ticker_toUpdate_bounded). (5) one wakeup entry per component (addWakeup_length ...) and the older operation-level ledger. PARTIAL: task and timer lifetimes inside asyncio (lazy purging of cancelled timer handles, garbage collection of finished tasks, what other adapters create) are runtime behaviour; the TCP model IS tied by a trace acceptor (driver op tcpres: the connect / chunk / reply-finished / end-of-stream / handler-returned events of several concurrent connections through the real handle function, observed by a task factory, must be enabled in TcpSt in the order observed, and at every quiescent moment the io's live tasks and still-referenced finished reply tasks must equal the model's); the system-race model is tied by measurement only. Measurement on the real code: 7 long runs (flat periodic, nested periodic, depth-2, far callback pre-empted by interrupts; with and without interrupts) are measured after N, 2N, 4N master ticks (N = 40 quick / 500 thorough): live tasks, finished-but-retained Task objects (gc), pending timers, wakeups, pending interrupts, entries of every container reachable from scheduler and components; the master loop events of each run must be accepted by the flag protocol model; plus 1200 / 16000 messages on one TCP connection through the real handle function with fake streams (some replies fail in the reply task) and 1200 / 16000 message sequences through the real ZeroMqPushIo with a fake socket whose peer goes away (sends fail); a resource that is higher at 4N than at N by more than 2 with non-decreasing differences is reported.')
 LEVEL_NOTE = 'Trusts: Lean kernel for the bookkeeping bound; CPython gc and asyncio.all_tasks for the measurement; harness tasks are excluded by name.'
 ASSUMPTIONS = ['one open TCP connection; fake streams that never block']
 
@@ -184,6 +184,131 @@ async def tcp_messages(n_msgs, marks_at):
     return marks, len(w.out), len(interrupts)
 
 
+async def tcp_acceptor_run(seed, n_actions=40, max_conns=3):
+    """several connections at once through the real TcpIo handle function (fake streams), driven by a seeded script
+    (connect / chunk on connection i / end of stream on connection i) with replies whose writing takes time or fails.
+    Observed WITHOUT touching the io: a task factory sees which connection handler spawns which reply task, done
+    callbacks see them finish.  Returns (events, marks): marks = [(number of events so far, live tasks of the io,
+    finished reply tasks that are still referenced by something)] taken at quiescent moments."""
+    import weakref
+    from tickit.adapters.io.tcp_io import TcpIo
+    from tickit.adapters.specifications.regex_command import RegexCommand
+    from tickit.adapters.tcp import CommandAdapter
+    rng = random.Random(seed)
+
+    class A(CommandAdapter):
+        @RegexCommand(rb"P=(\d+)", interrupt=True)
+        async def setp(self, v: int) -> bytes:
+            return b"ok"
+
+        @RegexCommand(rb"Q\?")
+        async def q(self) -> bytes:
+            return b"1"
+
+        @RegexCommand(rb"BAD")
+        async def bad(self) -> str:
+            return "a str reply cannot be written in the byte format: the reply task fails"
+
+    async def raise_interrupt():
+        pass
+
+    class Reader:
+        def __init__(self):
+            self.q = asyncio.Queue()
+
+        async def read(self, k):
+            data = await self.q.get()
+            if data == b"":
+                events.append(["eof", idx_of[self]])
+            return data
+
+    class Writer:
+        def write(self, b):
+            pass
+
+        def is_closing(self):
+            return False
+
+        async def drain(self):
+            await asyncio.sleep(rng.choice((0, 0, 1e-6, 2e-5)))
+
+        def get_extra_info(self, k):
+            return ("fake", 0)
+
+    io = TcpIo("localhost", 0)
+    adapter = A()
+    handle = io._generate_handle_function(adapter.on_connect, adapter.handle_message, raise_interrupt, adapter.byte_format)
+    loop = asyncio.get_event_loop()
+    events, marks = [], []
+    idx_of = {}            # reader -> connection index in order of the first reply task
+    reader_of_task = {}    # handler task -> reader
+    handlers, replies = [], []   # weak references
+
+    def factory(lp, coro, **kw):
+        t = asyncio.Task(coro, loop=lp, **kw)
+        cur = asyncio.current_task(lp)
+        rd = reader_of_task.get(cur)
+        if rd is not None:
+            if rd not in idx_of:
+                idx_of[rd] = len(idx_of)
+                events.append(["connect"])
+            else:
+                events.append(["chunk", idx_of[rd]])
+            i = idx_of[rd]
+            replies.append(weakref.ref(t))
+            t.add_done_callback(lambda _t, i=i: events.append(["done", i]))
+        return t
+    old_factory = loop.get_task_factory()
+    loop.set_task_factory(factory)
+    readers = []
+    try:
+        def measure():
+            gc.collect()
+            live = sum(1 for r in handlers + replies if r() is not None and not r().done())
+            done_alive = sum(1 for r in replies if r() is not None and r().done())
+            marks.append((len(events), live, done_alive))
+
+        async def settle():
+            for _ in range(6):
+                await asyncio.sleep(0)
+            await asyncio.sleep(1e-3)
+            for _ in range(3):
+                await asyncio.sleep(0)
+
+        open_ = []
+        for _ in range(n_actions):
+            r = rng.random()
+            if (r < 0.2 and len(readers) < max_conns) or not open_:
+                if len(readers) >= max_conns:
+                    break
+                rd = Reader()
+                readers.append(rd)
+                open_.append(rd)
+                t = asyncio.ensure_future(handle(rd, Writer()))
+                reader_of_task[t] = rd
+                handlers.append(weakref.ref(t))
+                t.add_done_callback(lambda _t, rd=rd: events.append(["finish", idx_of.get(rd, -1)]))
+                del t
+            elif r < 0.85:
+                rd = rng.choice(open_)
+                for _ in range(rng.choice((1, 1, 2, 3))):
+                    rd.q.put_nowait(rng.choice((b"Q?", b"P=4", b"BAD", b"nonsense")))
+            else:
+                rd = rng.choice(open_)
+                open_.remove(rd)
+                rd.q.put_nowait(b"")
+            if rng.random() < 0.6:
+                await settle()
+                measure()
+        for rd in open_:
+            rd.q.put_nowait(b"")
+        await settle()
+        measure()
+    finally:
+        loop.set_task_factory(old_factory)
+    return events, marks
+
+
 async def zmq_sequences(n_seqs, marks_at):
     """thousands of message sequences through the real ZeroMqPushIo (queued by the adapter and sent directly with
     send_message_sequence_soon) over a fake socket; from one third of the run on the peer is away: drain() raises"""
@@ -302,6 +427,19 @@ def run(tier, seed, drv):
                 res.violate(V("resource-grows", f"tcp connection: {k} = {a[k]} / {b[k]} / {c[k]} after {M} / {2 * M} / {4 * M} messages", site="tcp_io", resource=k), {"tcp": True, "M": M})
     else:
         res.violate(V("run-too-short", f"tcp run produced marks {marks}", site="tcp"), {"tcp": True, "M": M})
+    # several TCP connections at once: the observed connection / chunk / reply-finished / end-of-stream / handler-returned events
+    # must be an execution of the resource model of the TCP io (Core/RaceRes, TcpSt - the machine of Props/C14Race: tcp_bounded,
+    # tcp_quiescent) and, at every quiescent moment, the io's live tasks and the finished reply tasks still referenced by
+    # anything must be what the model says (open handlers + replies in flight; none)
+    for k in range(8 if tier == "quick" else 60):
+        sd = seed * 1000 + k
+        (events, marks) = run_virtual(lambda loop, sd=sd: tcp_acceptor_run(sd))[0][1]
+        case = {"tcp_acceptor": sd}
+        res.case(f"tcp-acceptor:{sd}", nontrivial=len(events) > 6)
+        res.count("tcp-acceptor-runs")
+        res.count("tcp-acceptor-events", len(events))
+        for v in tcp_acceptor_judge(events, marks, drv, res, case):
+            res.violate(v, case)
     res.rule = (f"4 long runs x (with/without interrupts every 1.3 ms): flat periodic, nested periodic, depth-2 nesting, a far callback pre-empted by interrupts; "
                 f"measured after N={N}, 2N, 4N master ticks: live asyncio tasks, finished-but-retained Task objects (gc), pending timers, wakeups, pending "
                 f"interrupts, and the total number of entries in every container reachable from the scheduler and the components (whatever the attribute names); plus {4 * M} messages on one TCP connection through the real handle function with fake streams, measured at M, 2M, 4M; "
@@ -309,9 +447,41 @@ def run(tier, seed, drv):
     return res
 
 
+def tcp_acceptor_judge(events, marks, drv, res, case):
+    out = []
+    rep = drv.eval([{"op": "tcpres", "fixed": True, "events": events}])[0]
+    res.traces_validated += 1
+    if not rep.get("accepted"):
+        i = rep.get("at")
+        msg = f"TCP io: observed event #{i} {events[i] if isinstance(i, int) and i < len(events) else None} after {events[max(0, (i or 0) - 4):i]} is not possible in the resource model ({rep.get('why')})"
+        # a reply task spawned after the end of the stream, or a handler that returns while replies are unwritten
+        if isinstance(i, int) and i < len(events) and events[i][0] == "finish":
+            out.append(V("handler-returned-with-replies-in-flight", msg, site="tcp_io"))
+        else:
+            res.diverge(msg, case)
+        return out
+    tr = rep["trace"]
+    for (n, live, done_alive) in marks:
+        if n == 0:
+            continue
+        m = tr[n - 1]
+        if live != m["tasks"]:
+            out.append(V("resource-grows", f"TCP io after {n} events {events[max(0, n - 3):n]}: {live} live tasks, the model has {m['tasks']} ({m['open']} open handlers + {m['replyLive']} replies in flight)",
+                         site="tcp_io", resource="live_tasks"))
+            break
+        if done_alive != m["retained"] - m["replyLive"]:
+            out.append(V("resource-grows", f"TCP io after {n} events: {done_alive} finished reply tasks are still referenced, the model retains {m['retained'] - m['replyLive']}",
+                         site="tcp_io", resource="retained_done_tasks"))
+            break
+    return out
+
+
 def replay(payload, drv):
     c = payload["case"]
     res = Result()
+    if "tcp_acceptor" in c:
+        (events, marks) = run_virtual(lambda loop: tcp_acceptor_run(c["tcp_acceptor"]))[0][1]
+        return {"events": events, "marks": marks, "violations": tcp_acceptor_judge(events, marks, drv, res, c), "divergences": res.divergences[:2]}
     if c.get("zmq"):
         Z = c["Z"]
         (zmarks, zstate) = run_virtual(lambda loop: zmq_sequences(4 * Z, [Z, 2 * Z, 4 * Z]))[0][1]
